@@ -134,6 +134,12 @@ func (e *Exec) siteMatches(ss *SiteSpec, ins ssa.Instruction) bool {
 			return true
 		}
 		return false
+	case "mapupdate":
+		mu, ok := ins.(*ssa.MapUpdate)
+		if !ok {
+			return false
+		}
+		return mapOperandName(mu.Map) == ss.Target
 	case "store":
 		st, ok := ins.(*ssa.Store)
 		if !ok {
@@ -196,6 +202,10 @@ func (e *Exec) runSiteSpecs(s *State, ins ssa.Instruction, specs []*SiteSpec, be
 		if st, ok := ins.(*ssa.Store); ok {
 			extra["stored"] = specVar{e.val(s, st.Val), st.Val.Type()}
 		}
+		if mu, ok := ins.(*ssa.MapUpdate); ok {
+			extra["stored"] = specVar{e.val(s, mu.Value), mu.Value.Type()}
+			extra["key"] = specVar{e.val(s, mu.Key), mu.Key.Type()}
+		}
 		if rt, ok := ins.(*ssa.Return); ok {
 			for i, r := range rt.Results {
 				extra[fmt.Sprintf("ret%d", i)] = specVar{e.val(s, r), r.Type()}
@@ -224,7 +234,7 @@ func (e *Exec) runSiteSpecs(s *State, ins ssa.Instruction, specs []*SiteSpec, be
 			e.v.noteTrusted(fmt.Sprintf("assumed at site %s of %s", ss.Label, e.funcKey))
 		}
 		for _, a := range ss.Assume {
-			hs.assume(e.asHyp(func() *Node { return e.evalClauseCur(a, hs, e.entry, extra) }))
+			hs.assume(e.asHyp(func() *Node { return e.evalClauseCur(a, hs, e.oldState(), extra) }))
 		}
 		for _, g := range ss.Ghost {
 			eq := strings.Index(g, "=")
@@ -239,6 +249,30 @@ func (e *Exec) runSiteSpecs(s *State, ins ssa.Instruction, specs []*SiteSpec, be
 			}
 			ctx := &SpecCtx{e: e, st: s, old: e.entry, vars: extra2, pkg: e.pkgTypes(), current: true}
 			v, vt := ctx.eval(n)
+			if dot := strings.LastIndex(name, "."); dot > 0 {
+				// ghost field of an object: set X.f = v
+				on, err := parseSpec(name[:dot])
+				if err != nil {
+					panic(unsupportedErr{"bad ghost assignment target " + name})
+				}
+				ov, ot := ctx.eval(on)
+				gf := e.v.ghostField(ot, name[dot+1:])
+				if gf == nil {
+					panic(unsupportedErr{"no ghost field " + name})
+				}
+				hn := ghostHeapName(gf)
+				sortS := e.ghostHeapSort(gf, "Iface")
+				h := e.heap(s, hn, sortS)
+				owner := e.ghostOwner(s, ov, ot)
+				switch x := v.(type) {
+				case *ConstV:
+					v = BigLit(x.V)
+				case nilV:
+					v = IntLit(0)
+				}
+				e.setHeap(s, hn, Store(h, owner, v.(*Node)), owner)
+				continue
+			}
 			if cv, ok := v.(*ConstV); ok {
 				v = e.ar.lit(cv.V, e.ghostT[name])
 			} else if isMath(e.ghostT[name]) && vt != nil && !isMath(vt) {
@@ -266,7 +300,7 @@ func (e *Exec) runSiteSpecs(s *State, ins ssa.Instruction, specs []*SiteSpec, be
 				Goal: tTrue, Hyp: hs.pc, Func: e.funcKey, Text: "site reachable", Props: unionProps(orProps(ss.Props, e.props)), Mode: e.mode, exec: e})
 		}
 		for i, a := range ss.Assert {
-			g := e.evalClauseCur(a, hs, e.entry, extra)
+			g := e.evalClauseCur(a, hs, e.oldState(), extra)
 			name := fmt.Sprintf("%s/site:%s#%d/assert#%d", e.funcKey, ss.Label, ord, i+1)
 			if e.quiet == 0 {
 				e.obls = append(e.obls, &Obligation{Name: name, Kind: "site", Pos: ins.Pos(), Goal: g, Hyp: hs.pc, Func: e.funcKey,
@@ -279,6 +313,9 @@ func (e *Exec) runSiteSpecs(s *State, ins ssa.Instruction, specs []*SiteSpec, be
 func (e *Exec) atReturn(s *State, r *ssa.Return) {
 	// held monitors must have been released
 	for _, h := range s.held {
+		if h.Inherited {
+			continue
+		}
 		e.addObl(s, e.oblName("monitor/"+h.Key+"/released-at-return"), "monitor", Not(s.pc), r.Pos(), "mutex still held at return")
 	}
 }
@@ -621,4 +658,22 @@ func returnAfter(rd *ssa.RunDefers) *ssa.Return {
 		}
 	}
 	return nil
+}
+
+// mapOperandName: the field or variable name a map operand was loaded from ("active" for s.active).
+func mapOperandName(v ssa.Value) string {
+	if u, ok := v.(*ssa.UnOp); ok {
+		switch x := u.X.(type) {
+		case *ssa.FieldAddr:
+			st := derefType(x.X.Type()).Underlying().(*types.Struct)
+			return st.Field(x.Field).Name()
+		case *ssa.Alloc:
+			return x.Comment
+		case *ssa.FreeVar:
+			return x.Name()
+		case *ssa.Global:
+			return x.Name()
+		}
+	}
+	return v.Name()
 }
